@@ -499,8 +499,10 @@ class AtomicWriter(Generic[IOKindT]):
         """Create the temporary file object."""
         if self.temp is not None:
             # Already open - close and delete the current file.
-            self.temp.close()
-            Path(self.temp.name).unlink()
+            try:
+                self.temp.close()
+            finally:
+                Path(self.temp.name).unlink()
 
         # Create folders if needed.
         self.filename.parent.mkdir(parents=True, exist_ok=True)
@@ -530,8 +532,14 @@ class AtomicWriter(Generic[IOKindT]):
     ) -> None:
         # Delegate down to close the file like normal.
         if self.temp is not None:
-            self.temp.__exit__(exc_type, exc_value, tback)
-            self.temp = None
+            temp, self.temp = self.temp, None
+            try:
+                temp.__exit__(exc_type, exc_value, tback)
+            except BaseException:
+                # Couldn't flush and close, so the data is incomplete. Discard it.
+                if self._temp_name is not None:
+                    self._temp_name.unlink(missing_ok=True)
+                raise
         if self._temp_name is None:
             # Exit without enter?
             return None
@@ -543,7 +551,12 @@ class AtomicWriter(Generic[IOKindT]):
                 pass
         else:
             # No exception, commit changes
-            self._temp_name.replace(self.filename)
+            try:
+                self._temp_name.replace(self.filename)
+            except BaseException:
+                # Failed to move it over, don't leave the temp file around.
+                self._temp_name.unlink(missing_ok=True)
+                raise
 
         return None  # Don't cancel the exception.
 
